@@ -75,6 +75,8 @@ fn _random_mod_order() -> ClResult<BIG> {
     let mut rng = RAND::new();
     // AMCL recommends to initialise from at least 128 bytes, check doc for `RAND.seed`
     rng.seed(ENTROPY, &seed);
+    #[cfg(feature = "verif")]
+    crate::verif::tape_record("random_mod_order", ENTROPY * 8, String::new);
     Ok(BIG::randomnum(&ORDER, &mut rng))
 }
 
